@@ -1,4 +1,5 @@
 import JugModel.Model.Graph
+import JugModel.Model.Target
 /-!
 # C09 - invalidation removes exactly the results that depend on the target
 -/
@@ -355,5 +356,60 @@ theorem invalidate_keeps_closed {V} (wf : ∀ t d, d ∈ deps t → d < t) (res 
 
 /-! non-vacuity: a diamond 0 → 1,2 → 3 with an unrelated task 4; invalidating task 1's name removes 1 and 3 only -/
 example : (List.range 5).filter (aff (fun t => if t = 1 ∨ t = 2 then [0] else if t = 3 then [1, 2] else []) (fun t => t == 1)) = [1, 3] := by decide
+
+
+/-! ### which tasks a target names (Model/Target.lean) -/
+section TargetMatching
+open Jug.Target
+
+theorem occursIn_iff (p : List Char) : ∀ s : List Char, occursIn p s = true ↔ ∃ a b, s = a ++ p ++ b := by
+  intro s
+  induction s with
+  | nil =>
+    simp only [occursIn, List.isEmpty_iff]
+    constructor
+    · intro h; exact ⟨[], [], by simp [h]⟩
+    · rintro ⟨a, b, h⟩
+      have := congrArg List.length h
+      simp at this
+      exact List.eq_nil_of_length_eq_zero (by omega)
+  | cons c s ih =>
+    simp only [occursIn, Bool.or_eq_true, List.isPrefixOf_iff_prefix, ih]
+    constructor
+    · rintro (⟨t, ht⟩ | ⟨a, b, h⟩)
+      · exact ⟨[], t, by simp [ht]⟩
+      · exact ⟨c :: a, b, by simp [h]⟩
+    · rintro ⟨a, b, h⟩
+      cases a with
+      | nil => left; exact ⟨b, by simpa using h.symm⟩
+      | cons x a' =>
+        right
+        simp only [List.cons_append, List.cons.injEq] at h
+        exact ⟨a', b, h.2⟩
+
+/-- a bare target names every task whose function is called like it, in whatever module -/
+theorem bare_hits_function (target modname : List Char) (hb : target.contains '.' = false) :
+    matchesName target (modname ++ '.' :: target) = true := by
+  simp only [matchesName, hb, Bool.false_eq_true, if_false]
+  exact (occursIn_iff _ _).mpr ⟨modname, [], by simp⟩
+
+/-- ... and only tasks in whose qualified name it begins a dotted component after the first: never a task just because its
+    module (the jugfile) is called like the target -/
+theorem bare_needs_component (target name : List Char) (hb : target.contains '.' = false) (h : matchesName target name = true) :
+    ∃ a b, name = a ++ '.' :: target ++ b := by
+  simp only [matchesName, hb, Bool.false_eq_true, if_false] at h
+  obtain ⟨a, b, hab⟩ := (occursIn_iff _ _).mp h
+  exact ⟨a, b, by simpa using hab⟩
+
+/-- a dotted target names exactly the tasks in whose qualified name it occurs -/
+theorem dotted_iff (target name : List Char) (hd : target.contains '.' = true) :
+    matchesName target name = true ↔ ∃ a b, name = a ++ target ++ b := by
+  simp only [matchesName, hd, if_true]
+  exact occursIn_iff _ _
+
+example : matchesName "mk".toList "jugverif.lib.mk".toList = true := by decide
+example : matchesName "jugverif".toList "jugverif.lib.mk".toList = false := by decide
+example : matchesName "lib.mk".toList "jugverif.lib.mk".toList = true := by decide
+end TargetMatching
 
 end Jug.C09
